@@ -333,7 +333,9 @@ func init() {
 		panic("sb")
 	}
 	for _, n := range []string{"internal/bytealg.IndexByteString", "internal/bytealg.IndexByte", "strings.IndexByte", "bytes.IndexByte"} {
-		reg(n, func(m *Machine, fn *ssa.Function, a []Value) Value { return indexByte(m, sb(m, a[0]), a[1].(*sym.Term)) })
+		reg(n, func(m *Machine, fn *ssa.Function, a []Value) Value {
+			return indexByte(m, sb(m, a[0]), a[1].(*sym.Term))
+		})
 	}
 	for _, n := range []string{"internal/bytealg.IndexString", "internal/bytealg.Index", "strings.Index", "bytes.Index"} {
 		reg(n, func(m *Machine, fn *ssa.Function, a []Value) Value { return index(m, sb(m, a[0]), sb(m, a[1])) })
@@ -618,9 +620,10 @@ func (m *Machine) assert(cond *sym.Term, id string) {
 		m.Stats.CacheHits++
 	} else {
 		r = m.solver.CheckIsolated(append(append([]*sym.Term{}, cs...), neg))
-		if len(m.acache) < 1_000_000 {
-			m.acache[key] = r
+		if len(m.acache) > 300_000 {
+			m.acache = map[string]smt.Result{}
 		}
+		m.acache[key] = r
 	}
 	if r == smt.Sat {
 		r, model = m.solver.CheckModel(m.pc, neg, m.inputVars())
